@@ -315,6 +315,9 @@ def check_known_classes(ctx):
 
 def run(ctx):
     check_known_classes(ctx)
+    # 'the stdout recorded for the doctest is exactly what its code wrote': the capture object of DocTest.run, driven directly
+    from harness.props import c12
+    c12.capture_protocol(ctx)
     cases = gen_cases(ctx)
     chunks = [cases[i:i + 60] for i in range(0, len(cases), 60)]
     results = [r for ch in common.pmap(_worker, chunks) for r in ch]
@@ -349,6 +352,9 @@ def run(ctx):
 
 def replay(path):
     d = json.load(open(path))
+    if d.get('kind') == 'capture-protocol':
+        from harness.props import c12
+        return c12.replay_capture_protocol(d, path, 'C01')
     doc = d['doctest']
     i = parsemodel.impl_parse(doc)
     res, _ = parsemodel.model_parse_many([doc])
